@@ -1,11 +1,13 @@
 """per-property evidence metadata (level, explanation); functions/assumptions come from the contract modules"""
 META = {
  "C03": dict(level="proof", explanation="STREAM-REFINE contracts on the real stream.py modules: ghost token queue, head/cap/idle postconditions, bounded presentation, per parameterisation, all inputs/schedules, unbounded time by induction"),
+ "C15": dict(level="proof", explanation="one-step postconditions over all trigger and CSR-write valuations on the real EventManager/EventSource*/SharedIRQ behind a real CSRBank"),
+ "C11": dict(level="proof", explanation="ghost wait counters against the real WaitTimer/Timeout/AXI(Lite)Timeout: forced termination exactly at expiry, transparency before, recovery after; fault point and schedule universally quantified"),
  "C04": dict(level="proof", explanation="hold-until-ready two-cycle postcondition and bounded-response (progress) obligations from every invariant state of the real stream/packet modules"),
 }
 
 ENGINES = [
- dict(name="E1 fhdl2smt+hwcontract", path="vf/fhdl2smt.py, vf/hw.py", serves_properties=["C03", "C04"],
+ dict(name="E1 fhdl2smt+hwcontract", path="vf/fhdl2smt.py, vf/hw.py", serves_properties=["C03", "C04", "C06", "C07", "C08", "C09", "C10", "C11", "C12", "C15", "C16", "C17", "C18", "C19"],
       kind_free_text="FHDL fragment of the real module -> z3 transition system with the simulator's exact semantics; ghost state, assumptions, Houdini-filtered invariants, per-cycle/multi-cycle postconditions, bounded response, covers; counterexamples replayed on the real litex.gen.sim simulator"),
 ]
 _HW_NOTE = ("Trusted: z3/cvc5; the 300-line symbolic evaluator vf/fhdl2smt.py (co-simulated against the real simulator on every run; every counterexample replayed on the real simulator); "
@@ -18,5 +20,10 @@ CLAIMS = {
              text="Hold-until-ready is a two-cycle postcondition proved from every invariant state under the producer-holds assumption; absence of deadlock/livelock is proved in bounded-response form (N cooperating cycles always move a token) for each element and for 2-3 element compositions through the real Pipeline.",
              note=_HW_NOTE + " Unbounded 'eventually' is replaced by bounded response.", technique="contract-based deductive verification: two-cycle postconditions and bounded-response obligations over inductive invariants, SMT (z3/cvc5)"),
 }
+def _hw(design_ref, text, extra="", technique="contract-based deductive verification: ghost-state contracts on the real FHDL, inductive invariants (Houdini), SMT (z3/cvc5)"):
+    return dict(engine="E1 fhdl2smt+hwcontract", level="proof", design_ref=design_ref, text=text, note=_HW_NOTE + (" " + extra if extra else ""), technique=technique)
+CLAIMS["C15"] = _hw("DESIGN.md §3 C15", "irq == OR(pending&enable); set / keep / clear / same-cycle race / isolation / level / status clauses are one-step postconditions proved over all trigger and CSR-write valuations for every source mix of the grid, behind a real CSRBank; SharedIRQ == OR.")
+CLAIMS["C11"] = _hw("DESIGN.md §3 C11", "Ghost wait counters against the real WaitTimer, wishbone.Timeout (alone and inside InterconnectShared with arbitrary silent slaves / unmapped addresses), AXILiteTimeout, AXITimeout and the SoC error counter: termination with the error indication exactly at expiry, transparency before expiry, reload after; fault point and schedule universally quantified.",
+                    "AXI(-Lite) time-outs proved for single-outstanding masters; listed known findings: accepted-then-silent slaves, crossbars ignoring timeout_cycles.")
 _NYB = "check not built yet in this session (see DESIGN.md build order); will be claimed when its contracts are committed"
 NOT_APPLICABLE = {p: _NYB for p in ["C%02d" % i for i in range(1, 21)]}
